@@ -137,6 +137,6 @@ def run(env, rep):
     from ..framework import PrefixReport, wants
     if wants(rep, "C08.R4"):
         from . import C01
-        C01.run(env, PrefixReport(rep, "C01.", "C08.R4.", only=("C01.R2", "C01.R3", "C01.R5"), keys=lambda k: not str(k).startswith("reader:")))
+        C01.run(env, PrefixReport(rep, "C01.", "C08.R4.", only=("C01.R2", "C01.R3", "C01.R5")))
         from . import C07
         C07.run(env, PrefixReport(rep, "C07.", "C08.R4.", only=("C07.R5",)))
